@@ -109,8 +109,8 @@ CLAIMS = {
                 text='every function of frequency_sketch.rs verified against nibble-level postconditions for all tables and hashes; get proved to record exactly once, every other operation never',
                 note='assumes std specs of count_ones/next_power_of_two/pow/into_boxed_slice; sketch table <= 2^27 words; ' + _ENV),
     'C17': dict(technique='Verus pass-through contracts on builders, Policy, with_everything and policy(); Kani complete proofs of the 1000-year guard (both directions) and of weigh',
-                text='every builder setter is proved to set exactly its knob and keep the others, build/build_with_hasher to hand the five knobs unchanged to with_everything, with_everything (unsync, real text) to store them and start empty whatever initial_capacity is, policy() to report the stored values; ensure_expirations_or_panic returns iff both durations <= 1000 years (all Durations); weigh(None) == 1',
-                note='the concurrent cache constructor chain (BaseCache::new, Inner::new) is assumed; Inner::policy, BaseCache::policy and sync::Cache::policy are proved (the public policy() reports exactly the stored knobs); the weigher(..) setters (dyn Fn boxing) are rejected by Verus and not under contract; new(n) == builder().max_capacity(n).build() follows from identical postconditions up to the unspecified RandomState::default(). ' + _ENV),
+                text='every builder setter is proved to set exactly its knob and keep the others, build/build_with_hasher to hand the five knobs unchanged to with_everything, with_everything (both caches, real text; for the concurrent cache down to Inner::new) to store them and start empty whatever initial_capacity is, policy() to report the stored values; ensure_expirations_or_panic returns iff both durations <= 1000 years (all Durations); weigh(None) == 1',
+                note='the concurrent cache constructor chain sync::Cache::new / with_everything -> BaseCache::new -> Inner::new is proved on the real text in unit sync (every knob stored exactly as given, whatever initial_capacity is), as are Inner::policy, BaseCache::policy and sync::Cache::policy (the public policy() reports exactly the stored knobs); stated assumption on the configuration: initial_capacity + 384 (write-log size) fits in usize (Inner::new adds them unchecked; beyond that the map constructor of the dependency panics on the same input in any case); the weigher(..) setters (dyn Fn boxing) are rejected by Verus and not under contract; new(n) == builder().max_capacity(n).build() follows from identical postconditions up to the unspecified RandomState::default(). ' + _ENV),
     'C15': dict(technique='Verus frame contract: contains_key leaves exactly the state the housekeeping prefix leaves; lemma that this housekeeping leaves no trim work behind; bounded metamorphic runtime check of the statement itself',
                 text='contains_key is proved to change nothing beyond the housekeeping every operation starts with: same estimator, same recency order of survivors, same timestamps, and (fewer residents than one batch) no surplus left, so the next operation trims nothing more',
                 note=_UNS + _ENV + ' iter takes &self (no interior mutability in the unsync cache). The relational (two-run) statement is not a function contract: it is checked literally only by the bounded metamorphic runtime stand-in, which reports the known finding KF-C15-1 (an extra contains_key trims a pending update surplus earlier than the history without it).'),
